@@ -495,12 +495,17 @@ class NAND(TypeReaderCryptoBase):
         self.twl_partitions = []
         self.bonus_partitions = []
 
+        def window():
+            # every wrapper gets a window of its own: wrappers sharing one window (one position) are not safe to use from
+            #   different threads, because each wrapper only holds its own lock while it seeks and reads
+            return SubsectionIO(self._file, self._start, raw_nand_size)
+
         if self.counter:
             self._base_files.update({
-                'ctr_old': self._crypto.create_ctr_io(Keyslot.CTRNANDOld, self._subfile, self.counter),
-                'ctr_new': self._crypto.create_ctr_io(Keyslot.CTRNANDNew, self._subfile, self.counter),
-                'firm': self._crypto.create_ctr_io(Keyslot.FIRM, self._subfile, self.counter),
-                'agb': self._crypto.create_ctr_io(Keyslot.AGB, self._subfile, self.counter),
+                'ctr_old': self._crypto.create_ctr_io(Keyslot.CTRNANDOld, window(), self.counter),
+                'ctr_new': self._crypto.create_ctr_io(Keyslot.CTRNANDNew, window(), self.counter),
+                'firm': self._crypto.create_ctr_io(Keyslot.FIRM, window(), self.counter),
+                'agb': self._crypto.create_ctr_io(Keyslot.AGB, window(), self.counter),
             })
 
             if self.ctr_index is not None:
@@ -514,7 +519,7 @@ class NAND(TypeReaderCryptoBase):
                         logger.error('Could not load CTR partitions', exc_info=True)
 
         if self.counter_twl:
-            self._base_files['twl'] = self._crypto.create_ctr_io(Keyslot.TWLNAND, self._subfile, self.counter_twl)
+            self._base_files['twl'] = self._crypto.create_ctr_io(Keyslot.TWLNAND, window(), self.counter_twl)
 
             if self.twl_index is not None:
                 with self.open_raw_section(self.twl_index) as f:
